@@ -243,6 +243,39 @@ def random_cyclic(rng):
     return {"graph": nodes, "root": 0}, branching
 
 
+def random_dag(rng):
+    """A random small container tree (3..10 containers, mixed kinds) in which 1..3 containers are
+    referenced a second time from elsewhere -- at another depth as a rule -- with the extra
+    reference first, last or in the middle of its holder.  Edges only go from older to younger
+    nodes, so there is no cycle: the value is finite, shared sub-objects are legal data and must
+    give the full result (each occurrence counts), and its nesting is that of its unfolding."""
+    nodes: List[list] = [[rng.choice("ld"), []]]
+    parent = {0: None}
+    n = rng.randint(2, 9)
+    for i in range(1, n + 1):
+        nodes.append([rng.choice("ld"), []])
+        parent[i] = rng.randrange(i) if rng.random() < 0.6 else i - 1  # a deep branch more often than not
+    members: Dict[int, List[int]] = {i: [] for i in range(n + 1)}
+    for i in range(1, n + 1):
+        members[parent[i]].append(i)
+    for _ in range(rng.choice((1, 1, 2, 3))):
+        holder = rng.randrange(n)
+        target = rng.randrange(holder + 1, n + 1)
+        where = rng.choice((0, len(members[holder]), rng.randrange(len(members[holder]) + 1)))
+        members[holder].insert(where, target)
+    for i in range(n + 1):
+        ms = list(members[i])
+        for _ in range(rng.choice((0, 0, 1, 2))):
+            nodes.append(["v", rng.randint(1, 9)])
+            ms.insert(rng.randrange(len(ms) + 1), len(nodes) - 1)
+        if nodes[i][0] == "l":
+            nodes[i][1] = ms
+        else:
+            keys = ["a", "b", "c", "d", "e", "f", "g", "h", "i", "j", "k", "m"]
+            nodes[i][1] = [[keys[j % len(keys)] + ("" if j < len(keys) else str(j)), m] for j, m in enumerate(ms)]
+    return {"graph": nodes, "root": 0}
+
+
 DAGS = {
     "dag-shared-leaf": {"graph": [["l", [1, 1]], ["l", [2]], ["v", 1]], "root": 0},
     "dag-diamond": {"graph": [["d", [["a", 1], ["b", 2]]], ["l", [3]], ["l", [3]], ["d", [["a", 4]]], ["v", 9]], "root": 0},
@@ -324,24 +357,31 @@ def gen_scenario(rng, tier: str) -> Dict[str, Any]:
         if rng.random() < 0.2:
             segs.append({"k": "child", "sels": [{"t": "wild"}], "sh": False})
     else:
-        if r < 0.78:
+        if r < 0.76:
             spec, branching = random_cyclic(rng)
             shape = {"class": "cyclic-branching" if branching else "cyclic", "name": "random"}
             name = "random-branching" if branching else "random"
-        elif r < 0.92:
+        elif r < 0.88:
             name = rng.choice(sorted(CYCLIC))
             spec = CYCLIC[name]
             shape = {"class": "cyclic-branching" if name in BRANCHING else "cyclic", "name": name}
-        if r < 0.92:
+        if r < 0.88:
             if name in BRANCHING or name == "random-branching":
                 L = rng.choice((1, 2, 3, 4, 5, 6, 50, 100, 100, 300))
             else:
                 L = rng.choice((1, 2, 3, 5, 8, 12, 50, 100, 100, 300))
         else:
-            name = rng.choice(sorted(DAGS))
-            spec = DAGS[name]
+            if rng.random() < 0.35:
+                name = rng.choice(sorted(DAGS))
+                spec = DAGS[name]
+                L = rng.choice((1, 2, 3, 4, 5, 100))
+            else:
+                name = "random"
+                spec = random_dag(rng)
+                # the limit sits around the nesting of the value (that of its deepest occurrence)
+                nest = int(N.nesting(D.build(spec)))
+                L = max(1, nest + rng.choice((-2, -1, -1, 0, 0, 0, 1, 2)))
             shape = {"class": "dag", "name": name}
-            L = rng.choice((1, 2, 3, 4, 5, 100))
         segs = []
         if rng.random() < 0.3:
             segs.append({"k": "child", "sels": [rng.choice(PREFIX_SELS)], "sh": False})
